@@ -283,7 +283,7 @@ class C14(core.Check):
                         'pos:zero-length@end': 2, 'pos:zero-length@start': 2, 'pos:zero-length@before-org-gap': 2,
                         'pos:zero-length@muted': 2, 'pos:zero-length@end-after-label': 2, 'outcome:success': 3,
                         'outcome:failure': 3, 'output-in-missing-directory': 3, 'long-run:directed': 20, 'odd-spacing:directed': 10, 'corpus-example': 2, 'window-options': 3,
-                        'planted:symbol-cycle': 3, 'no-image-asked-for': 3, 'page-local-target:page-0': 3, 'corruption:name-defined-in-an-uncompiled-branch-only': 3, 'corruption:label-of-another-file-of-the-include-chain': 3, 'corruption:text-behind-a-complete-operand': 3, 'symbol-cycle:use-before-it-closes': 3, 'symbol-cycle:first-from-cmdline': 3,
+                        'planted:symbol-cycle': 3, 'no-image-asked-for': 3, 'page-local-target:page-0': 3, 'corruption:name-defined-in-an-uncompiled-branch-only': 3, 'corruption:label-of-another-file-of-the-include-chain': 3, 'corruption:text-behind-a-complete-operand': 3, 'corruption:garbled-preprocessor-keyword': 3, 'corruption:garbled-directive': 3, 'corruption:value-outside-a-bound-that-is-0': 3, 'value-on-a-bound-that-is-0': 3, 'symbol-cycle:use-before-it-closes': 3, 'symbol-cycle:first-from-cmdline': 3,
                         'symbol-cycle:first-from-config': 3}
 
     def make(self, isa_files, isa_name, main, src, fmt, planted, tags, missing_dir=False, extra_argv=()):
@@ -410,6 +410,22 @@ class C14(core.Check):
             Lt = lines[:at] + [ins] + lines[at:]
             yield self.make({fn: itext}, fn, 'p.asm', '\n'.join(Lt) + '\n', None, 'no-variant-accepts',
                             {'corruption:text-behind-a-complete-operand', 'fmt:None', 'planted:no-variant-accepts', 'pos:' + ['first', 'middle', 'last'][k_ % 3]})
+        # a line that begins with # and is no preprocessor directive is an unknown statement, not a line to pass over
+        for k_, ins in enumerate(['#esle', '#defne C14_FLAG 1', '#incude "c14x.asm"', '#iff 1', '#endfi', '#unmut', '#requir "x"',
+                                  '#create_memzon C14Z 1 2', '#', '#define', '#ifdef', '#print "x"', '# define C14_X 1', '#DEFINE C14_X 1', '#Mute',
+                                  '#if 1\n.byte 1\n#esle\n.byte 2\n#endif', '#includes "c14x.asm"', '#emitt']):
+            at = [0, len(lines) // 2, len(lines)][k_ % 3]
+            Lt = lines[:at] + [ins] + lines[at:]
+            yield self.make({fn: itext}, fn, 'p.asm', '\n'.join(Lt) + '\n', None, 'unknown-instruction',
+                            {'corruption:garbled-preprocessor-keyword', 'fmt:None', 'planted:unknown-instruction', 'pos:' + ['first', 'middle', 'last'][k_ % 3]})
+        # a directive keyword with text glued to it is another word, and text behind a complete directive is not dropped
+        for k_, ins in enumerate(['.alignxyz', '.align4', '.align 4, garbage', '.align 2 3', '.orgx 5', '.org5', '.bytes 1', '.byte1', '.zero2', '.zerox 2',
+                                  '.fill 2, 1, 3', '.fillx 2, 1', '.memzone GLOBAL x', '.memzonex GLOBAL', '.cstr "a" x', '.cstrx "a"', '.2bytex 1',
+                                  '.zerountilx 5', '.zerountil 5 x', '.aligned', '.alignnop', '.alignq4']):
+            at = [0, len(lines) // 2, len(lines)][k_ % 3]
+            Lt = lines[:at] + [ins] + lines[at:]
+            yield self.make({fn: itext}, fn, 'p.asm', '\n'.join(Lt) + '\n', None, 'unknown-instruction',
+                            {'corruption:garbled-directive', 'fmt:None', 'planted:unknown-instruction', 'pos:' + ['first', 'middle', 'last'][k_ % 3]})
         # a page-local target outside the instruction's page does not fit its field, wherever the two pages are
         for k_, (ia_, ta_) in enumerate([(0x0200, 0x0010), (0x0300, 0x00FF), (0x0100, 0x0000), (0x0200, 0x0300), (0x0210, 0x01FF),
                                          (0x4000, 0x0040), (0x0100, 0x4001)]):
@@ -421,6 +437,24 @@ class C14(core.Check):
                 yield self.make({fn: itext}, fn, 'p.asm', '\n'.join(body) + '\n', None, 'value-does-not-fit-field',
                                 {'corruption:page-local-target-in-another-page', 'fmt:None', 'planted:value-does-not-fit-field',
                                  'page-local-target:' + ('page-0' if ta_ < 0x100 else 'other-page'), 'pos:last'})
+        # a bound of an operand code field holds when it is 0 as well as when it is any other number: values below a minimum of 0
+        # (and above the maximum) do not fit, whether written as a literal, an expression or a constant
+        import copy
+        isa_b = copy.deepcopy(isa)
+        isa_b['operand_sets']['c14_bit3'] = {'operand_values': {'n3': {'type': 'numeric_bytecode', 'bytecode': {'size': 3, 'min': 0, 'max': 7}}}}
+        isa_b['operand_sets']['c14_sgn3'] = {'operand_values': {'n3': {'type': 'numeric_bytecode', 'bytecode': {'size': 3, 'min': -4, 'max': 0}}}}
+        isa_b['instructions']['bt3'] = {'bytecode': {'value': 0x15, 'size': 5}, 'operands': {'count': 1, 'operand_sets': {'list': ['c14_bit3']}}}
+        isa_b['instructions']['sg3'] = {'bytecode': {'value': 0x16, 'size': 5}, 'operands': {'count': 1, 'operand_sets': {'list': ['c14_sgn3']}}}
+        fn_b, itext_b = isamod.render_isa(isa_b, 'json')
+        for k_, ins in enumerate(['bt3 -1', 'bt3 0-4', 'bt3 c14_two-3', 'bt3 8', 'bt3 -4', 'bt3 c14_two*4', 'sg3 1', 'sg3 c14_two', 'sg3 -5', 'sg3 3']):
+            at = [0, len(lines) // 2, len(lines)][k_ % 3]
+            Lt = ['c14_two = 2'] + lines[:at] + [ins] + lines[at:]
+            yield self.make({fn_b: itext_b}, fn_b, 'p.asm', '\n'.join(Lt) + '\n', None, 'value-does-not-fit-field',
+                            {'corruption:value-outside-a-bound-that-is-0', 'fmt:None', 'planted:value-does-not-fit-field', 'pos:' + ['first', 'middle', 'last'][k_ % 3]})
+        for k_, ins in enumerate(['bt3 0', 'bt3 7', 'bt3 c14_two+5', 'sg3 0', 'sg3 -4', 'sg3 c14_two-3']):
+            Lt = ['c14_two = 2'] + lines + [ins]
+            yield self.make({fn_b: itext_b}, fn_b, 'p.asm', '\n'.join(Lt) + '\n', None, None,
+                            {'corruption:none', 'fmt:None', 'value-on-a-bound-that-is-0', 'pos:last'})
         # corruptions of the repository's example programs (line-level, no AST needed)
         from vf import runner
         import sys
